@@ -34,13 +34,14 @@ type midObs struct {
 }
 
 type groupsObs struct {
-	Initial int      `json:"initial"`          // selection before the service is started
-	Started int      `json:"started"`          // selection after Start, before the first tick
-	After   []int    `json:"after"`            // selection after round k
-	Mid     []midObs `json:"mid"`              // selections seen while round k was running
-	Order   [][]int  `json:"order"`            // per round: clients in the order their probes ended
-	Events  []string `json:"events,omitempty"` // per round: what the harness clients saw, in order (job <i> / mid)
-	Err     string   `json:"err,omitempty"`
+	Initial int       `json:"initial"`          // selection before the service is started
+	Started int       `json:"started"`          // selection after Start, before the first tick
+	After   []int     `json:"after"`            // selection after round k
+	Mid     []midObs  `json:"mid"`              // selections seen while round k was running
+	Order   [][]int   `json:"order"`            // per round: clients in the order their probes ended
+	Starts  [][]int64 `json:"starts"`           // per round, per client: fake-clock instant (ns) at which its probe started
+	Events  []string  `json:"events,omitempty"` // per round: what the harness clients saw, in order (job <i> / mid)
+	Err     string    `json:"err,omitempty"`
 }
 
 const nonMember = -1 // identity of something that is not a client of the group
@@ -71,6 +72,10 @@ type world struct {
 	group  netio.StreamClient
 	ugroup zerocopy.UDPClient
 	bad    []string // protocol-level surprises (wrong probe request, ...)
+	starts [][]int64
+	// real-time UDP engine only
+	realtime  bool
+	durations []probeDur
 }
 
 func (w *world) observe() int {
@@ -91,6 +96,9 @@ func (w *world) nextAct(id int) (int, Act, bool) {
 	w.mu.Lock()
 	defer w.mu.Unlock()
 	k := w.calls[id]
+	if k < len(w.starts) && id < len(w.starts[k]) {
+		w.starts[k][id] = time.Now().UnixNano()
+	}
 	w.calls[id]++
 	if k >= len(w.c.Rounds) {
 		return k, Act{}, false
@@ -267,6 +275,10 @@ func buildGroup(c Case, w *world) (tcp netio.StreamClient, udp zerocopy.UDPClien
 func runGroups(t *testing.T, c Case) (obs groupsObs) {
 	w := &world{c: c, T: time.Duration(c.effTimeout()), calls: make([]int, c.N+outsiders+200)}
 	body := func(t *testing.T) {
+		w.starts = make([][]int64, len(c.Rounds))
+		for k := range w.starts {
+			w.starts[k] = make([]int64, c.N)
+		}
 		// channels must be created inside the bubble: waiting on an outside channel is not "durably blocked"
 		w.doneCh = make(chan int, 4*c.N+8)
 		ctx, cancel := context.WithCancel(context.Background())
@@ -305,6 +317,7 @@ func runGroups(t *testing.T, c Case) (obs groupsObs) {
 	runBubble(t, c.Proto == "udp", body)
 	w.mu.Lock()
 	obs.Mid = w.mid
+	obs.Starts = w.starts
 	if len(w.bad) > 0 && obs.Err == "" {
 		obs.Err = "probe protocol: " + strings.Join(w.bad, "; ")
 	}
